@@ -4,7 +4,7 @@
    of the resolved content is C06's trie_canonical (Properties/C06.v), restated here as root_is_mpt. *)
 From Coq Require Import List NArith Bool Arith Lia.
 From Verif Require Import Trie.Model Trie.Keys Trie.ProofsWf Trie.Theorems Store.Model Store.Proofs Store.ProofsCommit
-  Store.ProofsReach Store.ProofsPrune Store.ProofsLink Store.ExamplesPrune.
+  Store.ProofsReach Store.ProofsPrune Store.ProofsLink Store.ProofsTie Store.ExamplesPrune.
 Import ListNotations.
 Open Scope N_scope.
 
@@ -14,11 +14,26 @@ Section C12.
   (* committing version v of a trie never changes what any resolvable root (name', v') resolves to — for every
      set of written nodes, every other trie and every other version of the same trie — provided v is fresh for
      that trie (nothing answers for (name, _, v) before the commit: versions are (block number, conflicts), unique) *)
+  (* NOTE on the premise: `sget` falls through to the deduped space, whose key carries no version (and no partition in
+     production), so once a pruner round has checkpointed a node of the trie the premise is false for every v
+     (Example ex_old_freshness_fails).  This form is the statement for stores that have not been pruned;
+     commit_preserves_roots_any below needs no freshness at all and is the one that applies after pruning. *)
   Theorem commit_preserves_roots f (s : store V) name v es name' v' t :
     (forall p, sget V s name p v = None) ->
     open_root V f s name' v' = Some t ->
     open_root V f (commit V s name v es) name' v' = Some t.
   Proof. exact (commit_preserves_roots_lemma V f s name v es name' v' t). Qed.
+
+  (* any store, pruned or not: a commit of (name, v) changes the reader only at version v of trie name; a root that
+     follows no node of that version — every root of another trie, every root of this trie whose followed nodes have other
+     versions — resolves to the same trie with the same fuel.  (The premise is exact: a root that does follow a node at
+     (name, q, v) with q among the written paths reads the new blob.)  On histories the premise holds for every live
+     canonical root (followed_not_fresh; Example ex_commit_any_premise on a pruned store). *)
+  Theorem commit_preserves_roots_any f (s : store V) name v es name' v' t :
+    open_root V f s name' v' = Some t ->
+    name' <> name \/ (forall q w b, Reach V (sget V s name') [] (SRef v') q w b -> w <> v) ->
+    open_root V f (commit V s name v es) name' v' = Some t.
+  Proof. exact (ProofsLink.commit_preserves_roots_any V f s name v es name' v' t). Qed.
 
   (* a cache that only holds what the store holds (filled from reads and commits) is invisible *)
   Theorem resolve_independent_of_cache f cache (s : store V) name v :
@@ -33,7 +48,9 @@ Section C12.
      node when hashes are skipped; short nodes below the root stay embedded; clean subtrees are referenced, not
      rewritten — read back through the store resolves to exactly t, and the handle with its new flags still denotes
      t and is coherent with the new store (so the next commit starts from the same invariant).  For every choice of
-     `big` (which full nodes are large enough to be hashed) and both hashed and hash-skipped tries. *)
+     `big` (which full nodes are large enough to be hashed) and both hashed and hash-skipped tries.
+     The freshness premise is the unpruned-store form (see the NOTE at commit_preserves_roots); commit_reads_back_any
+     below is the form that also applies to pruned stores. *)
   Theorem commit_reads_back (s : store V) name newv big skip n t :
     (forall p, sget V s name p newv = None) ->
     Coh V (sget V s name) [] n -> WRes V (sget V s name) [] n t -> is_inner V n ->
@@ -41,6 +58,25 @@ Section C12.
     let s' := commit V s name newv (snd (wstore V big skip newv [] n)) in
     Res V (sget V s' name) [] (SRef newv) t /\ Coh V (sget V s' name) [] n' /\ WRes V (sget V s' name) [] n' t.
   Proof. exact (commit_reads_back_lemma V s name newv big skip n t). Qed.
+
+  (* commit_reads_back for any store, pruned or not (its freshness premise above is false on a pruned store): `Old` is any
+     set of stored nodes that contains every clean node and reference of the working trie (WTop), is closed under what
+     resolving them follows, resolves, and contains no node of version newv.  Then the committed root reads back, the
+     handle stays coherent, and every node the new root follows is an entry of the commit (a well-formed blob) or in Old.
+     With Old = the nodes of the head root this is commit_links_to_parent. *)
+  Theorem commit_reads_back_any (s : store V) name newv big skip n t (Old : list nat -> ver -> snode V -> Prop) :
+    (forall q w b, Old q w b -> w <> newv /\ sget V s name q w = Some b) ->
+    (forall q w b q1 w1 b1, Old q w b -> Reach V (sget V s name) q b q1 w1 b1 -> Old q1 w1 b1) ->
+    (forall q w b, Old q w b -> exists t', Res V (sget V s name) q b t') ->
+    (forall q w r, WTop V [] n q w r -> exists b, Old q w b) ->
+    Coh V (sget V s name) [] n -> WRes V (sget V s name) [] n t -> is_inner V n ->
+    let es := snd (wstore V big skip newv [] n) in
+    let n' := fst (wstore V big skip newv [] n) in
+    let g' := sget V (commit V s name newv es) name in
+    Res V g' [] (SRef newv) t /\ Coh V g' [] n' /\ WRes V g' [] n' t /\
+    (forall q w b, Reach V g' [] (SRef newv) q w b ->
+       (w = newv /\ lookup V q es = Some b /\ blob_ok V b) \/ Old q w b).
+  Proof. exact (wstore_general V s name newv big skip n t Old). Qed.
 
   (* the fuel-based open_root and the resolution relation agree *)
   Theorem open_root_resolves f (s : store V) name v t :
@@ -112,6 +148,76 @@ Section C12.
     Inv V s name chain P -> name' <> name \/ (hist_fresh V s name v' /\ P <= fst v') ->
     Inv V (commit V s name' v' es) name chain P.
   Proof. exact (Inv_other_commit V s name chain P name' v' es). Qed.
+
+  (* the reader after a round, exactly: hist unless in a deleted partition; else (unless an account/index root) the
+     deduped space after the checkpoints; and the condition under which a deduped key answers b after the checkpoints:
+     every checkpointed node under that key carries b, and either one does or the key answered b before.  In a history
+     the checkpoint writes the node the checkpointed root has at a path, which is the node every later root has there
+     whenever that node is older than the target (history_invariant) — that is why overwriting the key is harmless. *)
+  Theorem reader_after_round (s : store V) cps base target name q w :
+    sget V (prune V s cps base target) name q w =
+    match (if in_deleted V s base target w then None else hist_find V (hist V s) name q w) with
+    | Some b => Some b
+    | None => if is_root q && root_only name then None
+              else dedup_find V (dedup V (checkpoints V s cps)) (dptn V s (fst w)) name q
+    end.
+  Proof. exact (sget_prune V s cps base target name q w). Qed.
+
+  Theorem deduped_key_after_checkpoints cps (s : store V) pt name q b :
+    (forall nodes q' w' b', In (name, nodes) cps -> In (q', w', b') nodes -> dptn V s (fst w') = pt -> q' = q -> b' = b) ->
+    ((exists nodes w' b', In (name, nodes) cps /\ In (q, w', b') nodes /\ dptn V s (fst w') = pt) \/
+     dedup_find V (dedup V s) pt name q = Some b) ->
+    dedup_find V (dedup V (checkpoints V s cps)) pt name q = Some b.
+  Proof. exact (dedup_find_checkpoints V cps s pt name q b). Qed.
+
+  (* caches: a cache that agrees with the store on the nodes a root follows is invisible for that root; a cache filled
+     before a round (coherent with the store then; the real node cache is not flushed by the pruner and may keep deleted
+     hist nodes) is invisible for every live root after the round *)
+  Theorem cache_invisible_on_followed f (cache g : list nat -> ver -> option (snode V)) p n t :
+    expand V f g p n = Some t ->
+    (forall q w b b', Reach V g p n q w b -> cache q w = Some b' -> b' = b) ->
+    expand V f (cached_get V cache g) p n = Some t.
+  Proof. exact (ProofsLink.cache_invisible_on_followed V f cache g p n t). Qed.
+
+  Theorem cache_survives_round name (s : store V) newer anchor older P base target cps f nodes cache v t :
+    History V name s (newer ++ anchor :: older) P ->
+    P <= base -> base <= target -> base mod hf V s = 0 -> target mod hf V s = 0 ->
+    Forall (fun vt => target <= fst (fst vt)) newer -> fst (fst anchor) < target ->
+    checkpoint_nodes V f s name (fst anchor) base = Some nodes ->
+    cps_for V name cps nodes ->
+    cache_coherent V cache (sget V s name) ->
+    In (v, t) (live_after V name newer anchor) ->
+    Res V (cached_get V cache (sget V (prune V s cps base target) name)) [] (SRef v) t.
+  Proof. exact (ProofsLink.cache_survives_round V name s newer anchor older P base target cps f nodes cache v t). Qed.
+
+  (* ---- what the correspondence harness evaluates on the recorded writes of the real code ----
+     link_check (extracted; run on the decoded hist puts of every real Trie.Commit of the tie stream) answering 0 is the
+     link condition towards the parent root, every entry being followed from the new root; so a checked commit on a state
+     satisfying the invariant keeps it.  prune_round (extracted; compared put by put / delete by delete with a real pruner
+     round) is the round of the History theorems. *)
+  Theorem link_check_sound (veqb : V -> V -> bool) f (s : store V) name newv es parent :
+    (forall a b, veqb a b = true -> a = b) ->
+    link_check V veqb f s name newv es parent = 0 ->
+    (forall q w b, RR V (sget V (commit V s name newv es) name) newv q w b ->
+       (w = newv /\ lookup V q es = Some b /\ blob_ok V b) \/
+       (w <> newv /\ match parent with Some vp => RR V (sget V s name) vp q w b | None => False end)) /\
+    (forall q b, In (q, b) es -> RR V (sget V (commit V s name newv es) name) newv q newv b).
+  Proof. intros Hv. exact (ProofsTie.link_check_sound V veqb Hv f s name newv es parent). Qed.
+
+  Theorem checked_commit_keeps_invariant (veqb : V -> V -> bool) f (s : store V) name chain P newv es t :
+    (forall a b, veqb a b = true -> a = b) ->
+    Inv V s name chain P -> hist_fresh V s name newv -> P <= fst newv ->
+    match chain with [] => True | vt :: _ => fst (fst vt) < fst newv end ->
+    link_check V veqb f s name newv es (match chain with [] => None | vt :: _ => Some (fst vt) end) = 0 ->
+    Res V (sget V (commit V s name newv es) name) [] (SRef newv) t ->
+    Inv V (commit V s name newv es) name ((newv, t) :: chain) P.
+  Proof. intros Hv. exact (ProofsTie.checked_commit_keeps_invariant V veqb Hv f s name chain P newv es t). Qed.
+
+  Theorem prune_round_is_prune f (s : store V) tries base target s' cps :
+    prune_round V f s tries base target = Some (s', cps) ->
+    s' = prune V s cps base target /\
+    (forall name nodes, In (name, nodes) cps -> exists v, In (name, v) tries /\ checkpoint_nodes V f s name v base = Some nodes).
+  Proof. exact (ProofsTie.prune_round_is_prune V f s tries base target s' cps). Qed.
 
   (* proved, conditional on the reachability lemma: if every reference followed while resolving a root survives the
      round — its node is stored at a version outside the deleted partitions, or the deduped space holds exactly its
@@ -209,6 +315,17 @@ Proof. exact x_round2. Qed.
 Example ex_dead_fork : open_root nat 10 xs6 0 w2 = Some xtf2 /\ open_root nat 10 xs7 0 w2 = Some xtf2' /\ xtf2 <> xtf2'.
 Proof. exact (conj x_fork_before (conj x_fork_after x_fork_differs)). Qed.
 
+Example ex_old_freshness_fails : sget nat xs7 0 [1%nat] v4 <> None.
+Proof. exact x_old_freshness_fails. Qed.
+Example ex_commit_any_premise : forall q w b, Reach nat (sget nat xs7 0) [] (SRef v3) q w b -> w <> v4.
+Proof. exact x_commit_any_premise. Qed.
+Example ex_commit_after_prune : open_root nat 10 xs8 0 v3 = Some xt3 /\ Res nat (sget nat xs8 0) [] (SRef v4) xt4.
+Proof. exact x_commit_after_prune. Qed.
+Example ex_survives : ResC nat (survives nat xs6 xcps 0 2 0) (sget nat xs6 0) [] (SRef v2) xt2.
+Proof. exact x_survives. Qed.
+Example ex_link_check : link_check nat Nat.eqb 10 xs5 0 v3 (snd (wstore nat bigT false v3 [] xn3)) (Some v2) = 0.
+Proof. vm_compute. reflexivity. Qed.
+
 Print Assumptions commit_preserves_roots.
 Print Assumptions resolve_independent_of_cache.
 Print Assumptions commit_reads_back.
@@ -219,6 +336,15 @@ Print Assumptions history_invariant.
 Print Assumptions checkpoint_iterator_spec.
 Print Assumptions commit_links_to_parent.
 Print Assumptions commit_preserves_roots_pruned.
+Print Assumptions commit_preserves_roots_any.
+Print Assumptions commit_reads_back_any.
+Print Assumptions reader_after_round.
+Print Assumptions deduped_key_after_checkpoints.
+Print Assumptions cache_invisible_on_followed.
+Print Assumptions cache_survives_round.
+Print Assumptions link_check_sound.
+Print Assumptions checked_commit_keeps_invariant.
+Print Assumptions prune_round_is_prune.
 Print Assumptions prune_preserves_recent_cond.
 Print Assumptions prune_preserves_recent_partial.
 Print Assumptions pruned_root_fails_partial.
